@@ -669,11 +669,14 @@ def run(ctx):
     items = [cases[i:i + k] for i in range(0, len(cases), k)]
     save, ctx.seed = ctx.seed, 0  # already rotated
     ctx.pmap(worker, items)
-    bound = 1
-    e2, e2_items, infos = (E2_QUICK if ctx.quick else E2_THOROUGH), [], []
-    for c in e2:
+    # preemption bound 1 for every table; thorough additionally completes bound 2 for the smallest one
+    e2 = [(c, 1) for c in (E2_QUICK if ctx.quick else E2_THOROUGH)] + ([] if ctx.quick else [(E2_QUICK[1], 2)])
+    e2_items, infos = [], []
+    for c, bound in e2:
         its, info = e2_plan(ctx, c, bound)
         e2_items += its
+        if info is not None:
+            info["preemption_bound"] = bound
         infos.append(info)
     ctx.pmap(e2_worker, e2_items)
     ctx.seed = save
@@ -687,7 +690,8 @@ def run(ctx):
                                       "formats": ["pin", "parquet"], "missing": ["none", "first+last column"],
                                       "cases": len(a)},
                          "family_B": {"deviation_values": len(DEVIATIONS), "max_deviations": maxdev, "cases": len(b)},
-                         "family_C": {"tables": len(e2), "preemption_bound": bound, "granularity": "entry"}}
+                         "family_C": {"tables": len(e2), "preemption_bounds": [b for _, b in e2],
+                                      "granularity": "entry"}}
 
 
 def replay(case):
